@@ -120,30 +120,54 @@ def check(ctx):
         prog.cls("MAB").methods.get("_MAB__convert_context")
     n_feat = 0
     if cf is not None:
-        counted = {ast.unparse(x.left) for x in ast.walk(cf.node) if isinstance(x, ast.Compare) and
-                   len(x.ops) == 1 and isinstance(x.ops[0], ast.Eq) and isinstance(x.left, ast.Name) and
-                   ast.unparse(x.comparators[0]) == "1"}
-        for st in ast.walk(cf.node):
-            if isinstance(st, ast.Assign) and len(st.targets) == 1 and isinstance(st.targets[0], ast.Name) and \
-                    st.targets[0].id in counted:
-                v = st.value
-                n_feat += 1
-                if isinstance(v, ast.Subscript) and isinstance(v.value, ast.Attribute) and v.value.attr == "shape":
-                    ctx.check(ast.unparse(v.slice) == "1", "R18.5", "the number of features of a Series is taken "
-                              "from the column dimension of the stored contexts", st, cf,
-                              "`%s` counts the stored rows: a Series of several single-feature contexts is then "
-                              "reshaped as one row (or the reverse), while the same data as list / ndarray / "
-                              "DataFrame is accepted" % ast.unparse(v))
-                else:
-                    ctx.ok("R18.5", "feature count `%s` is not a shape index" % ast.unparse(v)[:50], st, cf)
-    ctx.floor("R18.5", "feature-count definitions in __convert_context", n_feat, 4)
+        # what is compared with 1: a local of the converter, or the result of a helper method of the bandit
+        defs = []           # (value expression, statement, function)
+        for x in ast.walk(cf.node):
+            if not (isinstance(x, ast.Compare) and len(x.ops) == 1 and isinstance(x.ops[0], (ast.Eq, ast.NotEq))):
+                continue
+            sides = [x.left, x.comparators[0]]
+            if not any(isinstance(s_, ast.Constant) and s_.value == 1 and not isinstance(s_.value, bool)
+                       for s_ in sides):
+                continue
+            other = sides[0] if not (isinstance(sides[0], ast.Constant)) else sides[1]
+            if isinstance(other, ast.Name):
+                for st in ast.walk(cf.node):
+                    if isinstance(st, ast.Assign) and len(st.targets) == 1 and \
+                            isinstance(st.targets[0], ast.Name) and st.targets[0].id == other.id:
+                        defs.append((st.value, st, cf))
+            elif isinstance(other, ast.Call) and isinstance(other.func, ast.Attribute) and \
+                    ast.unparse(other.func.value) == "self":
+                helper = prog.cls("MAB").resolve(other.func.attr)
+                if helper is not None:
+                    returned = set()
+                    for st in ast.walk(helper.node):
+                        if isinstance(st, ast.Return) and st.value is not None:
+                            if isinstance(st.value, ast.Name):
+                                returned.add(st.value.id)
+                            else:
+                                defs.append((st.value, st, helper))
+                    for st in ast.walk(helper.node):
+                        if isinstance(st, ast.Assign) and len(st.targets) == 1 and \
+                                isinstance(st.targets[0], ast.Name) and st.targets[0].id in returned:
+                            defs.append((st.value, st, helper))
+        for v, st, f_ in defs:
+            n_feat += 1
+            if isinstance(v, ast.Subscript) and isinstance(v.value, ast.Attribute) and v.value.attr == "shape":
+                ctx.check(ast.unparse(v.slice) == "1", "R18.5", "the number of features of a Series is taken "
+                          "from the column dimension of the stored contexts", st, f_,
+                          "`%s` counts the stored rows: a Series of several single-feature contexts is then "
+                          "reshaped as one row (or the reverse), while the same data as list / ndarray / "
+                          "DataFrame is accepted" % ast.unparse(v))
+            else:
+                ctx.ok("R18.5", "feature count `%s` is not a shape index" % ast.unparse(v)[:50], st, f_)
+    ctx.floor("R18.5", "feature-count definitions in __convert_context", n_feat, 3)
     ctx.floor("R18.1", "store events examined", n_events, 3000)
     ctx.floor("R18.1", "bandit fields aliasing caller data", len(aliased_fields), 8)
     _type_tables(ctx)
 
 
 # ------------------------------------------------------------------------------------------------ R18.3
-def _isinstance_chain(fn, param):
+def _isinstance_chain(fn, param, delegates=None):
     """Walks `if isinstance(param, T): ... elif ...: ... else: ...` chains; returns (types, returns, ends_in_raise).
     returns: list of (type name, return expr node, guard description)."""
     types, rets = [], []
@@ -179,6 +203,15 @@ def _isinstance_chain(fn, param):
                     visit(st.body, cur_type, guards + [(ast.unparse(t), True)])
                     visit(st.orelse, cur_type, guards + [(ast.unparse(t), False)])
             elif isinstance(st, ast.Return):
+                v = st.value
+                if delegates is not None and isinstance(v, ast.Call) and v.args and \
+                        isinstance(v.args[0], ast.Name) and v.args[0].id == param and cur_type is None and \
+                        ast.unparse(v.func) in delegates:
+                    # everything not handled here is handed to another converter: its table applies
+                    d_types, d_rets, d_ends = delegates[ast.unparse(v.func)]
+                    types.extend(t_ for t_ in d_types if t_ not in types)
+                    ends[0] = d_ends
+                    continue
                 rets.append((cur_type, st, list(guards)))
             elif isinstance(st, ast.Raise):
                 if cur_type is None:
@@ -230,7 +263,7 @@ def _return_ok(ret, guards, param, need_c_guard, typ=None):
             return False, ".values on a non-pandas input"
         if not need_c_guard:
             return True, "identity"
-        ok = any(("C_CONTIGUOUS" in g and pol) for g, pol in guards)
+        ok = any((("C_CONTIGUOUS" in g or "c_contiguous" in g) and pol) for g, pol in guards)
         return ok, "identity under C_CONTIGUOUS guard" if ok else "identity without contiguity guard"
     return False, "unrecognised return form " + s
 
@@ -259,9 +292,12 @@ def _type_tables(ctx):
         n += 1
     # 2-D contexts
     acc = _validator_types(val_ctx, "contexts")
+    m_table = _isinstance_chain(conv_matrix, conv_matrix.params[0])
     for fn in (conv_ctx, conv_matrix):
         param = "contexts" if fn is conv_ctx else fn.params[0]
-        types, rets, ends = _isinstance_chain(fn, param)
+        types, rets, ends = _isinstance_chain(fn, param, {"MAB._convert_matrix": m_table,
+                                                          "self._convert_matrix": m_table}
+                                              if fn is conv_ctx else None)
         handled = set(types) - {"None"}
         ctx.check(acc == handled, "R18.3", "types accepted for contexts == types converted by %s" % fn.name,
                   fn.node, fn, "validator accepts %s, converter handles %s" % (sorted(acc), sorted(handled)),
@@ -272,4 +308,4 @@ def _type_tables(ctx):
             ok, why = _return_ok(r, g, param, need_c_guard=True, typ=t)
             ctx.check(ok, "R18.3", "%s[%s] returns a C-ordered ndarray (%s)" % (fn.name, t, why), r, fn)
             n += 1
-    ctx.floor("R18.3", "converter branches checked", n, 18)
+    ctx.floor("R18.3", "converter branches checked", n, 12)
